@@ -29,6 +29,7 @@ type L struct {
 	Choice int    `json:"choice,omitempty"` // finalize: index of the state candidate of V
 	IO     int    `json:"io,omitempty"`     // finalize: 1+index of the io candidate, 0 = none
 	Chunk  int    `json:"chunk,omitempty"`  // mpchunk: chunk index
+	From   int    `json:"from,omitempty"`   // io commit: 1+index of the io candidate of V it is derived from, 0 = empty root
 }
 
 func (l L) String() string {
@@ -37,6 +38,9 @@ func (l L) String() string {
 		t := ""
 		if l.Type == "io" {
 			t = ",io"
+			if l.From > 0 {
+				t = fmt.Sprintf(",io<-io#%d", l.From-1)
+			}
 		}
 		return fmt.Sprintf("commit(v%d,%s%s)", l.V, l.Batch, t)
 	case "finalize":
@@ -322,7 +326,16 @@ func (e *env) apply(l L) (errText string) {
 		var t mkvs.Tree
 		var base kv.Contents
 		typ := node.RootTypeState
-		if l.Type == "io" {
+		if l.Type == "io" && l.From > 0 {
+			// an io root built in several hops inside the version (inputs first, then outputs)
+			typ = node.RootTypeIO
+			ic := m.candsOf(l.V, node.RootTypeIO)
+			if l.From > len(ic) {
+				return fmt.Sprintf("harness: %s: no such io candidate", l)
+			}
+			t = mkvs.NewWithRoot(nil, e.ndb, ic[l.From-1].root)
+			base = ic[l.From-1].contents
+		} else if l.Type == "io" {
 			typ = node.RootTypeIO
 			t = mkvs.New(nil, e.ndb, node.RootTypeIO)
 			base = kv.Contents{}
